@@ -324,3 +324,18 @@ def run(ctx):
                 ctx.ob('C26-D6', mut, 'can change self.settings', 'resets derived cache self.%s' % d, ok,
                        detail='' if ok else '%s can change the settings but never re-initialises self.%s (built once from the old settings): an allow-list configured after the first resolver() call is ignored' % (mut.split('::')[-1], d),
                        site=loc(fn.d['span']))
+
+    # ---- D7 the default sync and async resolver stacks are built alike: same callee methods (Sync/Async in names ignored).  A guard, filter or
+    # wrapper present in only one flavour means the allow-list / redirect policy differs between Reader::from_stream and from_stream_async
+    import collections as _c
+    bs, ba = 'context::Context::build_default_sync_resolver', 'context::Context::build_default_async_resolver'
+    if ctx.require(prog.has(bs), bs) and ctx.require(prog.has(ba), ba):
+        def seg(n):
+            c_ = _c.Counter()
+            for bi, t in prog.fn(n).calls():
+                c_[re.sub(r'Async|Sync|_async|_sync', '', t['fd'].split('::')[-1])] += 1
+            return c_
+        a_, b_ = seg(bs), seg(ba)
+        ctx.analysed(bs, sum(a_.values())); ctx.analysed(ba, sum(b_.values()))
+        ctx.ob('C26-D7', bs, 'default resolver stack, sync vs async', 'built with the same steps', not (a_ - b_) and not (b_ - a_), detail='only sync: %s ; only async: %s' % (dict(a_ - b_), dict(b_ - a_)))
+
